@@ -72,7 +72,7 @@ Clauses ==
    X18_DupOrphan |-> X18_DupOrphan(st, gh),
    X18_DupResult |-> X18_DupResult(pre, ev, st, gh),
    X18_LateAnswer |-> X18_LateAnswer(pre, ev, st),
-   X18_WrapStale |-> X18_WrapStale(pre, ev, st, gh),
+   X18_WrapRejected |-> X18_WrapRejected(pre, ev),
    X18_ZeroHeightQueue |-> X18_ZeroHeightQueue(pre, ev, st)]
 
 Failing == IF ev.name = "Init" \/ ev.halt
@@ -107,7 +107,7 @@ Exercised ==
        [] c = "dup_orphan" -> \E q \in Replaced(pre, ev) : q.oracle
        [] c = "dup_rewrite" -> ev.name = "BeginBlock" /\ \E id \in Changed(pre, st) : id \in DOMAIN pre.results
        [] c = "late_answer" -> ev.name = "Respond" /\ ~ev.ok /\ ev.ctx \notin DOMAIN pre.ctx /\ ev.ctx # ""
-       [] c = "wrap" -> ev.name = "RequestRandom" /\ ev.ok /\ ev.n < 0
+       [] c = "wrap" -> ev.name = "RequestRandom" /\ ev.n < 0
        [] c = "zero_height" -> ev.name = "ZeroHeight" /\ ev.ok /\ pre.pending # {}
        [] c = "reject" -> ~ev.ok}
 Coverage == Exercised = {} \/ PrintT(<<"EXERCISED", Exercised>>)
